@@ -81,6 +81,7 @@ class Engine:
         self.max_cex = max_cex
         self.solver_timeout_ms = solver_timeout_ms
         self.stop_on_first = stop_on_first
+        self.max_enum = 40  # values tried by one concretisation before the path is cut
         self.decisions = []  # [value, other_side_open]
         self.pos = 0
         self.solver = None
@@ -519,6 +520,8 @@ class _SymNum:
         return _wrap(z3.simplify(r))
 
     def __rpow__(s, o):
+        if not _isinstance(o, (int, float)):
+            return NotImplemented
         if _isinstance(s, SymReal):
             raise Unsupported("real exponent")
         e = s.__index__()
@@ -568,26 +571,53 @@ class SymBool(_SymNum):
 
     __hash__ = _SymNum.__hash__
 
+    def _as_int(s):
+        return SymInt(_num(s))
+
     def __and__(s, o):
         if _isinstance(o, (SymBool, bool)):
             return SymBool(z3.simplify(z3.And(s.e, term(o))))
-        raise Unsupported("bitwise and on int")
+        return s._as_int() & o
 
-    __rand__ = __and__
+    def __rand__(s, o):
+        if _isinstance(o, (SymBool, bool)):
+            return SymBool(z3.simplify(z3.And(s.e, term(o))))
+        return o & s._as_int()
 
     def __or__(s, o):
         if _isinstance(o, (SymBool, bool)):
             return SymBool(z3.simplify(z3.Or(s.e, term(o))))
-        raise Unsupported("bitwise or on int")
+        return s._as_int() | o
 
-    __ror__ = __or__
+    def __ror__(s, o):
+        if _isinstance(o, (SymBool, bool)):
+            return SymBool(z3.simplify(z3.Or(s.e, term(o))))
+        return o | s._as_int()
 
     def __xor__(s, o):
         if _isinstance(o, (SymBool, bool)):
             return SymBool(z3.simplify(z3.Xor(s.e, term(o))))
-        raise Unsupported("bitwise xor on int")
+        return s._as_int() ^ o
 
-    __rxor__ = __xor__
+    def __rxor__(s, o):
+        if _isinstance(o, (SymBool, bool)):
+            return SymBool(z3.simplify(z3.Xor(s.e, term(o))))
+        return o ^ s._as_int()
+
+    def __lshift__(s, o):
+        return s._as_int() << o
+
+    def __rlshift__(s, o):
+        return o << s._as_int()
+
+    def __rshift__(s, o):
+        return s._as_int() >> o
+
+    def __rrshift__(s, o):
+        return o >> s._as_int()
+
+    def bit_length(self):
+        return self.__index__().bit_length()
 
     def __invert__(s):
         return SymInt(z3.simplify(-_num(s) - 1))
@@ -613,11 +643,15 @@ class SymInt(_SymNum):
         e = z3.simplify(self.e)
         if z3.is_int_value(e):
             return e.as_long()
+        tries = 0
         while True:
             v = eng.model().eval(e, model_completion=True)
             eng.res.concretisations += 1
             if eng.branch(e == v):
                 return v.as_long()
+            tries += 1
+            if tries > eng.max_enum:
+                raise PathCut("unbounded concretisation (> %d values)" % eng.max_enum)
 
     __int__ = __index__
 
@@ -649,6 +683,8 @@ class SymInt(_SymNum):
 
     def _bitop(s, o, name):
         # no LIA model for bit operations: enumerate both operands (bounded by the harness)
+        if _isinstance(o, SymReal) or not (is_sym(o) or _isinstance(o, int)):
+            return NotImplemented
         a = s.__index__()
         b = o.__index__() if is_sym(o) else o
         if not _isinstance(b, int):
@@ -674,6 +710,8 @@ class SymInt(_SymNum):
         return s._bitop(o, "__rxor__")
 
     def __lshift__(s, o):
+        if _isinstance(o, SymReal):
+            return NotImplemented
         k = o.__index__() if is_sym(o) else o
         if not _isinstance(k, int):
             return NotImplemented
@@ -684,10 +722,14 @@ class SymInt(_SymNum):
         return SymInt(z3.simplify(s.e * (2 ** int(k))))
 
     def __rlshift__(s, o):
+        if not _isinstance(o, int):
+            return NotImplemented
         k = s.__index__()
         return o << k
 
     def __rshift__(s, o):
+        if _isinstance(o, SymReal):
+            return NotImplemented
         k = o.__index__() if is_sym(o) else o
         if not _isinstance(k, int):
             return NotImplemented
@@ -698,6 +740,8 @@ class SymInt(_SymNum):
         return SymInt(z3.simplify(py_floordiv(s.e, z3.IntVal(2 ** int(k)))))
 
     def __rrshift__(s, o):
+        if not _isinstance(o, int):
+            return NotImplemented
         k = s.__index__()
         return o >> k
 
@@ -743,11 +787,15 @@ class SymReal(_SymNum):
     def _concrete(self):
         eng = _eng()
         e = z3.simplify(self.e)
+        tries = 0
         while True:
             v = eng.model().eval(e, model_completion=True)
             eng.res.concretisations += 1
             if eng.branch(e == v):
                 return _pyval(v)
+            tries += 1
+            if tries > eng.max_enum:
+                raise PathCut("unbounded concretisation (> %d values)" % eng.max_enum)
 
     def __float__(self):
         return float(self._concrete())
@@ -831,6 +879,30 @@ class _SymTypeMeta(type):
 
 class sym_type(type, metaclass=_SymTypeMeta):
     """Stand-in for the builtin `type`: `type(SymInt(..))` is `int`."""
+
+
+def sym_is(a, b, negate=False):
+    """`a is b` for values that may be proxies. Identity is modelled for the bool/None singletons;
+    identity between ints is implementation-defined in Python and outside every claim."""
+    if is_sym(a) or is_sym(b):
+        ta, tb = tag(a), tag(b)
+        if ta != tb:
+            r = False
+        elif ta == "bool":
+            r = SymBool(term(a) == term(b))
+        elif a is b:
+            r = True
+        else:
+            raise Unsupported("identity test between non-singleton numbers")
+    else:
+        r = a is b
+    if negate:
+        return (not r) if _isinstance(r, bool) else SymBool(z3.Not(r.e))
+    return r
+
+
+def sym_is_not(a, b):
+    return sym_is(a, b, negate=True)
 
 
 def sym_len(x):
